@@ -120,22 +120,32 @@ def main(argv=None):
 
     t0 = time.time()
     shards = list(mod.shards(tier, seed))
-    random.Random(seed).shuffle(shards)
     total = Rec()
     errors = []
-    nw = max(1, min(a.workers, len(shards)))
-    if nw == 1:
-        _init(pid)
-        results = map(_work, [(s, tier, seed) for s in shards])
-        pool = None
-    else:
-        pool = mp.get_context("fork").Pool(nw, initializer=_init, initargs=(pid,))
-        results = pool.imap_unordered(_work, [(s, tier, seed) for s in shards], chunksize=1)
-    for kind, payload in results:
-        if kind == "ok":
-            total.absorb(payload)
+    nshards = 0
+    rnd = 0
+    pool = None
+    while shards:
+        random.Random(seed + rnd).shuffle(shards)
+        nshards += len(shards)
+        jobs = [(s, tier, seed) for s in shards]
+        if a.workers <= 1:
+            if rnd == 0:
+                _init(pid)
+            results = map(_work, jobs)
         else:
-            errors.append(payload)
+            if pool is None:
+                pool = mp.get_context("fork").Pool(a.workers, initializer=_init, initargs=(pid,))
+            results = pool.imap_unordered(_work, jobs, chunksize=1)
+        for kind, payload in results:
+            if kind == "ok":
+                total.absorb(payload)
+            else:
+                errors.append(payload)
+        rnd += 1
+        shards = []
+        if hasattr(mod, "next_round") and not errors:
+            shards = list(mod.next_round(total, tier, seed, rnd))
     if pool is not None:
         pool.close()
         pool.join()
@@ -210,7 +220,8 @@ def main(argv=None):
         bounds=getattr(mod, "BOUNDS", {}).get(tier, {}),
         cap_hit=total.cap_hit,
         exhaustive=not total.cap_hit,
-        shards=len(shards),
+        shards=nshards,
+        rounds=rnd,
         known_findings_seen=sorted(matched),
         tree=REPO,
     )
